@@ -117,3 +117,11 @@ func VerifStreamJob(shardID uint64, replicaID uint64, did uint64, fs vfs.IFS,
 // Transport, so that a harness driving Transport.SendSnapshot end to end can
 // observe what the receiving side holds.
 func VerifTransportChunks(t *Transport) *Chunk { return t.chunks }
+
+// VerifSetMaxSnapshotConnections overrides the limit of concurrent outgoing
+// snapshot jobs and returns the previous value.
+func VerifSetMaxSnapshotConnections(n uint64) uint64 {
+	old := maxConnectionCount
+	maxConnectionCount = n
+	return old
+}
